@@ -275,5 +275,17 @@ def view_BlockExtra (v : Val) : Val :=
     ("rand_seed", v.get "rand_seed"), ("created_by", v.get "created_by"),
     ("custom", viewMaybe view_McBlockExtra (v.get "custom"))]
 
+/-- the `state_update` of a `Block` value is an ordinary cell (the model of `MerkleUpdate.deserialize` covers only those) -/
+def ordinaryStateUpdate (v : Val) : Bool :=
+  match v.get "state_update" with
+  | .cell c => !c.exotic
+  | _ => false
+
+/-- `Block` (`block#11ef55aa`): `info`, `value_flow`, `extra` parsed from their own cells; `state_update` = what
+    `MerkleUpdate.deserialize` returns for an ordinary cell: `None` -/
+def view_Block (v : Val) : Val :=
+  Rd.obj "Block" [("global_id", v.get "global_id"), ("info", view_BlockInfo (v.get "info")),
+    ("value_flow", view_ValueFlow (v.get "value_flow")), ("state_update", .unit), ("extra", view_BlockExtra (v.get "extra"))]
+
 end Blk
 end TonVerif.Tlb
